@@ -101,14 +101,20 @@ func (si *SourceImpl) endTxn(s *Server, ss *Session) {
 		si.txnBuf = nil
 		return
 	}
-	// a needed SELECT is emitted before MULTI
+	// a needed SELECT: up to 6.2 the master propagates MULTI with the client's database (execCommandPropagateMulti),
+	// so the SELECT precedes MULTI; from 7.0 on MULTI is propagated without a database ("we do not want to replicate
+	// SELECT, it'll be inserted together with the next command (inside the MULTI)", propagatePendingCommands)
 	db := si.txnBuf[0].db
-	if db != si.lastDB || !si.dbKnown {
+	if si.Flavour == "5" && (db != si.lastDB || !si.dbKnown) {
 		s.Repl.AppendStream(resp.EncodeCommand([]byte("SELECT"), []byte(strconv.Itoa(db))))
 		si.lastDB, si.dbKnown = db, true
 	}
 	s.Repl.AppendStream(resp.EncodeCommand([]byte("MULTI")))
 	for _, c := range si.txnBuf {
+		if c.db != si.lastDB || !si.dbKnown {
+			s.Repl.AppendStream(resp.EncodeCommand([]byte("SELECT"), []byte(strconv.Itoa(c.db))))
+			si.lastDB, si.dbKnown = c.db, true
+		}
 		s.Repl.AppendStream(resp.EncodeCommand(c.cmd...))
 	}
 	s.Repl.AppendStream(resp.EncodeCommand([]byte("EXEC")))
